@@ -91,6 +91,8 @@ def run(rep, tier, seed, replay):
         for g, line in zip(groups, h.ask(["K " + " ".join(hexs(e) for e in g) for g in groups])):
             if line == "empty=same tree=same any-results=same":
                 rep.stats["Glob::empty = new(\"\"), Glob::tree = new(\"**\"), any(results) = any(text)"] += 1
+            elif line.startswith("panic"):
+                rep.stats["constructors: a member panics while building (C05's subject)"] += 1
             else:
                 rep.violation("oracle", "a constant constructor differs from building its text, or any() over build results differs from any() over text",
                               {"any": g, "what": "constructors"}, impl=line[:300])
